@@ -11,7 +11,9 @@ fn render(p: &P) -> String {
         P::Byte(x) => format!("byte:{x}"),
         P::Bool(x) => format!("bool:{x}"),
         P::Str(x) => format!("str:{x:?}"),
-        _ => "other".to_string(),
+        P::Vector(_) => format!("list:{p}"),
+        P::Optional(_) => format!("optional:{p}"),
+        _ => format!("other:{p}"),
     }
 }
 
